@@ -28,7 +28,8 @@ def classify(case, code):
 
 def run(r):
     r.rule = RULE
-    r.level = "proof (partial)"
+    r.level = "proof"
+    r.extra_cov["scope"] = "partial: geometric partitioning observed end to end only"
     r.assumptions = [
         "f64 font sizes abstracted to N units: exact for the generated sizes (multiples of 1/8 pt below 2^30 pt), see Model.v header",
         "SHA-256 (crate sha2) is a function: section variable hash8hex; two FIPS 180-4 vectors checked each run",
